@@ -12,7 +12,7 @@ import (
 func init() {
 	register(&propDef{
 		ID:          "C11",
-		Explanation: "Decides, for templ.ComponentHandler (go/cfg dominance and reachability, object identity through go/types): R1 the buffered path renders into the pooled byte buffer, never into the ResponseWriter; R2 every effect on the ResponseWriter (Header, WriteHeader, Write, http.Error, delegation to the error handler) is dominated by the Render call; R3 the effects inside the `err != nil` branch are the only ones reachable when rendering failed — that branch returns on every path and no success effect is reachable from an error effect; R4 the success body is Bytes() of that same buffer, written exactly once, after the status; R5 ServeHTTP takes the buffered path unless StreamResponse is set; the pooled buffer is released only by a defer (no use after release). R6 no function of templ or templ/runtime uses the memory of a pooled buffer after the buffer went back to the pool (a slice from Bytes() returned past a deferred release, or used after a direct release): the response body would be overwritten by another request's render. R7 (= C10.R6) every object that goes into the buffer pools is reset or freshly empty, so a response never starts with bytes of an earlier (failed) render. R8 the ErrorHandler field is assigned the option's parameter itself (or a wrapper whose every return calls it). R9 inside package templ the StreamResponse flag is written only by an option dedicated to it: unconditionally, in a function that sets no other handler field, and no constructor presets it. NOT decided: what a configured error handler itself writes.",
+		Explanation: "Decides, for templ.ComponentHandler (go/cfg dominance and reachability, object identity through go/types): R1 the buffered path renders into the pooled byte buffer, never into the ResponseWriter; R2 every effect on the ResponseWriter (Header, WriteHeader, Write, http.Error, delegation to the error handler) is dominated by the Render call; R3 the effects inside the `err != nil` branch are the only ones reachable when rendering failed — that branch returns on every path and no success effect is reachable from an error effect; R4 the success body is Bytes() of that same buffer, written exactly once, after the status; R5 ServeHTTP takes the buffered path unless StreamResponse is set; the pooled buffer is released only by a defer (no use after release). R6 no function of templ or templ/runtime uses the memory of a pooled buffer after the buffer went back to the pool (a slice from Bytes() returned past a deferred release, or used after a direct release): the response body would be overwritten by another request's render. R7 (= C10.R6) every object that goes into the buffer pools is reset or freshly empty, so a response never starts with bytes of an earlier (failed) render. R8 the ErrorHandler field is assigned the option's parameter itself (or a wrapper whose every return calls it). R9 inside package templ the StreamResponse flag is written only by an option dedicated to it: unconditionally, in a function that sets no other handler field, and no constructor presets it. NOT decided: what a configured error handler itself writes. R3 also: the error side of the buffered handler writes no body to the ResponseWriter itself (helpers followed). R10/R11 no error result of packages templ / runtime is dropped or detected and then not returned.",
 		Assumptions: []string{"Component.Render writes only to the writer it is given"},
 		Trusted:     []string{"go/types", "x/tools go/packages, go/cfg"},
 		Run:         runC11,
@@ -20,7 +20,9 @@ func init() {
 }
 
 func runC11(c *Ctx) {
-	c.load(".")
+	c.load(".", "./runtime")
+	errorsNotLost(c, "C11.R10", ".", "runtime")
+	errorsFoundAreReported(c, "C11.R11", ".", "runtime")
 	p := c.pkg(".")
 	info := p.TypesInfo
 	fd := findFunc(p, "ComponentHandler", "ServeHTTPBuffered")
@@ -239,6 +241,55 @@ func runC11(c *Ctx) {
 		c.check(commits == "", "C11.R3", key+"|success-status-not-committed-on-error", c.pos(fd.Pos()), "the configured status is written only on the success side",
 			"the error branch commits the configured success status ("+commits+") before the error handler runs: the client receives a success status with the error body")
 		c.check(!leak, "C11.R3", key+"|no-document-bytes-on-error", c.pos(fd.Pos()), "the error branch never writes the buffer", "the error branch writes the (partial) buffer to the client")
+		// the error branch answers through http.Error or the configured error handler; it never writes a body to the
+		// ResponseWriter itself (directly, or in a helper that is handed w): the first such write commits an implicit 200
+		var findBodyWrite func(root ast.Node, depth int) string
+		findBodyWrite = func(root ast.Node, depth int) string {
+			res := ""
+			isRW := func(e ast.Expr) bool {
+				t := info.TypeOf(e)
+				return t != nil && t.String() == "net/http.ResponseWriter"
+			}
+			ast.Inspect(root, func(n ast.Node) bool {
+				call, ok := n.(*ast.CallExpr)
+				if !ok {
+					return true
+				}
+				if se, ok := call.Fun.(*ast.SelectorExpr); ok && (se.Sel.Name == "Write" || se.Sel.Name == "WriteString") && isRW(se.X) {
+					res = types.ExprString(call.Fun) + " at " + c.pos(call.Pos())
+				}
+				if fn := calleeOf(info, call); fn != nil && len(call.Args) > 0 && isRW(call.Args[0]) {
+					switch fullName(fn) {
+					case "io.WriteString", "fmt.Fprint", "fmt.Fprintf", "fmt.Fprintln", "io.Copy":
+						res = fullName(fn) + " at " + c.pos(call.Pos())
+					}
+				}
+				if depth < 2 {
+					if fn := calleeOf(info, call); fn != nil && fn.Pkg() == p.Types {
+						passesW := false
+						for _, a := range call.Args {
+							if isRW(a) {
+								passesW = true
+							}
+						}
+						if passesW {
+							for _, cfd := range allFuncDecls(p) {
+								if info.Defs[cfd.Name] == types.Object(fn) && cfd.Body != nil {
+									if r := findBodyWrite(cfd.Body, depth+1); r != "" {
+										res = r + " (reached through " + fn.Name() + ")"
+									}
+								}
+							}
+						}
+					}
+				}
+				return true
+			})
+			return res
+		}
+		bodyWrite := findBodyWrite(errRegion, 0)
+		c.check(bodyWrite == "", "C11.R3", key+"|error-branch-writes-no-body-itself", c.pos(fd.Pos()), "the error side answers through http.Error or the error handler only",
+			"the error branch of the buffered handler writes a body to the ResponseWriter itself ("+bodyWrite+"): nothing has set an error status on that path, so the client receives 200 (or the configured success status) with the error text — in buffered mode nothing has been sent yet, whatever the StreamResponse field says")
 		// R4: the success side writes the rendered document, once, after status and headers
 		okSide := map[*ast.CallExpr]bool{}
 		for _, call := range okEff {
